@@ -450,6 +450,25 @@ func CursorSweep(run *ev.Run, backend string, withWriteTx bool) {
 			map[string]interface{}{"engine": "cursorsweep", "backend": backend, "committed": s0, "in_tx": s1, "target": target, "forward": forward, "finding": msg})
 	}
 	walk := func(tx store.Tx, visible []string, s0, s1 []string) {
+		// point lookups: a present key gives its value (empty values included), an absent key gives nil without an error
+		vis := map[string]bool{}
+		for _, k := range visible {
+			vis[k] = true
+		}
+		for _, k := range append(append([]string{}, cursorKeys...), "a", "ba", "f") {
+			var v []byte
+			var err error
+			pan := safely(func() { v, err = tx.Get([]byte(k)) })
+			run.Add("evaluations", 1)
+			switch {
+			case pan != nil || err != nil:
+				viol("get-error", s0, s1, k, true, fmt.Sprintf("Get(%q): err=%v panic=%v", k, err, pan))
+			case vis[k] && (v == nil && len(cursorValue(k)) > 0 || !bytes.Equal(v, cursorValue(k))):
+				viol("get", s0, s1, k, true, fmt.Sprintf("Get(%q) = %q, expected %q", k, v, cursorValue(k)))
+			case !vis[k] && v != nil:
+				viol("get", s0, s1, k, true, fmt.Sprintf("Get(%q) = %q for a key that is not stored", k, v))
+			}
+		}
 		for _, target := range cursorTargets {
 			for _, forward := range []bool{true, false} {
 				if target == "" && !forward {
